@@ -436,7 +436,7 @@ def gen_geo1(rng, multi=None, permute=True):
                                       [_num(rng) / 8 for _ in range(3)], [0.25, -0.5, 2.5]])
     spec = {
         "kind": "geo1", "rows": rows, "ref_ind": ref, "flat": flat, "labels": labels,
-        "coord": coord, "dir": sdir,
+        "coord": coord, "dir": sdir, "coord_perm": (rng.choice([[2, 0, 1], [1, 0, 2], [2, 1, 0], [0, 2, 1]]) if rng.random() < 0.2 else None),
         "opt": gen_opt(rng, [("sensors lines", 2)], len(flat)),
         "info": rng.random() < 0.3, "extra": {},
     }
@@ -449,7 +449,12 @@ def build_fd1(spec):
         fd["INFO"] = pd.DataFrame({"a": ["text"]})
     fd["sensors names"] = mk_names_table(spec["rows"]) if "names_obj" not in spec else spec["names_obj"]
     lab = spec["labels"]
-    fd["sensors coordinates"] = mk_df(T(lab, spec.get("coord_cols", ["x", "y", "z"]), [spec["coord"][s] for s in lab]))
+    cp = spec.get("coord_perm")
+    if cp and "coord_cols" not in spec and all(len(spec["coord"][s]) == 3 for s in lab):
+        # the columns labelled x, y, z stored in another order (z, x, y ...): the same table, values selected by label
+        fd["sensors coordinates"] = mk_df(T(lab, ["xyz"[i] for i in cp], [[spec["coord"][s][i] for i in cp] for s in lab]))
+    else:
+        fd["sensors coordinates"] = mk_df(T(lab, spec.get("coord_cols", ["x", "y", "z"]), [spec["coord"][s] for s in lab]))
     dlab = spec.get("dir_labels", lab)
     fd["sensors directions"] = mk_df(T(dlab, spec.get("dir_cols", ["x", "y", "z"]), [spec["dir"][s] for s in dlab]))
     for k, t in spec["opt"].items():
@@ -1182,6 +1187,8 @@ def judge_geo1(spec, out):
     w = expect_geo1(spec)
     if list(names) != w["names"]:
         return "names-order"
+    if isinstance(coord, pd.DataFrame) and sorted(map(str, coord.columns)) == ["x", "y", "z"] and list(coord.columns) != ["x", "y", "z"]:
+        coord = coord[["x", "y", "z"]]  # the coordinate columns are labelled: read by label, whatever order they are stored in
     if not isinstance(coord, pd.DataFrame) or list(coord.index) != w["names"] or not _rows_eq(coord, w["coord"]):
         return "align-coord"
     if not _rows_eq(sdir, w["dir"]):
